@@ -52,6 +52,43 @@ def flag_negative(conds, field):
     return False
 
 
+def check_statics(run, F, T=None):
+    """Process-wide state in the client module: shared between clients, so it cannot depend on one client's configuration."""
+    if T is None:
+        T = load_json(os.path.join(VERIF, "tables", "danger.json"))
+    for cpath, c in F.consts.items():
+        if c["dk"].startswith("Static") and cpath.startswith("ipp::client"):
+            run.ob("R-TLSSTATIC", "static %s reviewed" % cpath, cpath in T["reviewed_statics"],
+                   "process-wide static %s: %s in the client module is not on the reviewed list; state shared between clients cannot depend on one client's target, "
+                   "credentials or opt-out flag" % (cpath, c["ty"]), "%s:%s" % (c["file"], c["line"]), key="R-TLSSTATIC|%s" % cpath)
+
+
+BUILDER_TYPES = ("native_tls::TlsConnectorBuilder::", "native_tls::TlsConnector::", "reqwest::ClientBuilder::", "ureq::AgentBuilder::", "rustls::ConfigBuilder::",
+                 "rustls::ClientConfig::", "rustls::client::", "rustls::RootCertStore::", "rustls::crypto::")
+
+
+def check_builder_calls(run, F, T):
+    """Every option the clients set on the HTTP / TLS stacks is a reviewed one: an option that is not a 'danger' API can still make a
+    correctly certified server fail (SNI off, protocol version pins, ALPN) or change whom the client trusts (extra roots, built-in roots off)."""
+    reviewed = set(T.get("reviewed_builder_calls", []))
+    n = 0
+    seen = set()
+    for path, body in F.hir.items():
+        if not path.startswith("ipp::client") or "::tests::" in path:
+            continue
+        for x in walk(body["body"]):
+            c = callee(x) or ""
+            if c.startswith(BUILDER_TYPES):
+                n += 1
+                if c in seen:
+                    continue
+                seen.add(c)
+                run.ob("R-TLSGATE", "HTTP/TLS option %s is a reviewed one" % c, c in reviewed,
+                       "%s is called by the client but is not in the reviewed list of options (tables/danger.json): it changes how the connection is negotiated or "
+                       "whom it trusts" % c, site(body, x), key="R-TLSGATE|option|%s" % c)
+    return n
+
+
 def check(run, views, tier):
     T = load_json(os.path.join(VERIF, "tables", "danger.json"))
     FLAG, ROOTS = T["flag_field"], T["roots_field"]
@@ -249,8 +286,6 @@ def check(run, views, tier):
                    key="R-TLSGATE|%s|writer" % path)
         run.floor("R-TLSGATE", len(writers), 1, "writers of the opt-out flag (the public setter)")
         # ---- (5) statics census -----------------------------------------------------------
-        for cpath, c in F.consts.items():
-            if c["dk"].startswith("Static") and cpath.startswith("ipp::client"):
-                run.ob("R-TLSSTATIC", "static %s reviewed" % cpath, cpath in T["reviewed_statics"],
-                       "process-wide static %s: %s in the client module is not on the reviewed list; TLS state shared between clients cannot depend on one client's opt-out flag" % (cpath, c["ty"]),
-                       "%s:%s" % (c["file"], c["line"]), key="R-TLSSTATIC|%s" % cpath)
+        check_statics(run, F, T)
+        # ---- (6) census of every option set on the HTTP / TLS builders ----------------------
+        check_builder_calls(run, F, T)
